@@ -183,6 +183,25 @@ FAMILIES["frames"] = {
     ],
 }
 
+FAMILIES["mapbuild"] = {
+    "anchor": "src/algorithm/map.rs Array::map, the key-insertion / row-removal block of Array::map_args; src/algorithm/dyadic/structure.rs Array::remove_row",
+    "bound": "3-4 scalar keys drawn from 3 values, scalar values",
+    "header": "use crate::shim::*;\n",
+    "rewrites": (PUBCRATE,),
+    "dropped": "R3 error text (format! shim macro); nothing else inside the extracted items; MapKeys::insert is NOT extracted here: the shim implements its contract",
+    "groups": [
+        {"wrap": "impl<T: ArrayValue> Array<T>", "items": [
+            {"kind": "fn", "name": "Array::map", "file": "src/algorithm/map.rs", "impl": r"^impl<T: ArrayValue> Array<T> \{", "fn": "map"},
+            {"kind": "range_in_fn", "name": "key-insertion and row-removal block of Array::map_args", "file": "src/algorithm/map.rs", "impl": r"^impl<T: ArrayValue> Array<T> \{", "fn": "map_args",
+             "start": r"^[ \t]*let mut to_remove = Vec::new\(\);", "end": r"^[ \t]*values\.meta\.map_keys = Some\(map_keys\);",
+             "sig": "pub fn map_args_tail(&mut self, keys: Value, mut map_keys: MapKeys, env: &Uiua) -> UiuaResult",
+             "prologue": "        let values = self;\n", "epilogue": "        values.meta.map_keys = Some(map_keys);\n        Ok(())"},
+            {"kind": "fn", "name": "Array::remove_row", "file": "src/algorithm/dyadic/structure.rs", "impl": r"^impl<T: Clone> Array<T> \{", "fn": "remove_row",
+             "rewrites": (("R4", r"(?m)^\s*#\[track_caller\]\n", "", "attribute dropped"),)},
+        ]},
+    ],
+}
+
 ARMSIG_P = "pub fn {n}(prim: &Prim, purity: Purity) -> bool"
 ARMSIG_M = "pub fn {n}(prim: &Prim, args: &[SigNode], purity: Purity, asm: &Assembly, visited: &mut Visited) -> bool"
 FAMILIES["purity"] = {
